@@ -493,3 +493,24 @@ def keyword_named(kind, X, rng):
     if kind in ("dfa", "nfa"):
         return rename_fa(X, m)
     return rename_pda(X, m) if kind == "pda" else rename_tm(X, m)
+
+
+def reorder_delta(A, src):
+    """The insertion order of a transition table (a dict) is no part of the automaton: for two of three sources the
+    table of the object is refilled, in place, in an order shuffled by the source's own seed / code."""
+    import random as _r
+    key = src.get("seed", src.get("code", 0))
+    if not isinstance(key, int):
+        key = len(str(key))
+    if key % 3 == 0:
+        return A
+    d = A.delta
+    items = list(d.items())
+    if key % 3 == 1:
+        _r.Random(key).shuffle(items)
+    else:
+        items.reverse()
+    d.clear()
+    for k, v in items:
+        d[k] = v
+    return A
